@@ -113,7 +113,7 @@ pub fn run(ctx: &Ctx) {
     ctx.assume("HMAC-equivalent passwords (RFC 2104 zero padding / hashing of long keys) derive the same key by construction of scrypt: listed as known finding, not re-litigated");
 
     // ---- small scope, exhaustive partitions with the password-mode AAD ----
-    let max_len = ctx.tier.pick(11, 14);
+    let max_len = ctx.tier.pick(11, 15);
     small_scope_block(ctx, "C02", &PASS_MAGIC, max_len, 4);
     ctx.note("small_scope", json!({"max_len": max_len, "max_chunk_size": 4, "aad": "65676b20", "exhaustive": true}));
     counter_crossing(ctx, "C02", &PASS_MAGIC, ctx.tier.pick(66_000, 140_000));
@@ -210,7 +210,7 @@ pub fn run(ctx: &Ctx) {
 
     // ---- wrong passwords ----
     // One small authentic file per password; each wrong password costs one scrypt evaluation.
-    let per_pw = ctx.tier.pick(18, 150);
+    let per_pw = ctx.tier.pick(18, 400);
     struct Wp {
         pw: usize,
         variant: String,
